@@ -4,6 +4,34 @@ import json, os, sys
 here = os.path.dirname(os.path.dirname(os.path.abspath(__file__)))
 
 CHECKS = {
+ "C01": dict(level="model_checking", design="4.0, 4/C01",
+   technique="grammar-state exploration (token trie over the pinned TS 24.501 tables, every prefix) executed on the real decoders + exhaustive 2^24 three-octet headers; panic/termination/allocation oracle in isolated worker processes",
+   text="Every state of the message-grammar explorer (message x mandatory-part choice x optional-token sequence up to the stated depth, every declared length of every length field, every truncation point, 70 000-octet inputs) is rendered and executed through PlainNasDecode, Gmm/GsmMessageDecode and Decode<Msg>; all 2^24 three-octet and all shorter inputs are executed too. A worker watchdog turns hangs and heap blow-ups into violations; allocation is metered with ReadMemStats against 32n+2*65535+16KiB bytes / 4n+64 objects.",
+   note="Trusted: pinned tables only shape the inputs (the oracle is crash/termination/allocation). Shapes deeper than the token depth are not enumerated; the allocation constants are calibrated (DESIGN.md C01)."),
+ "C02": dict(level="model_checking", design="4/C02",
+   technique="bounded exhaustive enumeration of well-formed message values from the pinned tables (presence subsets, every legal length, content patterns), each encoded/decoded through all three entry-point pairs and compared with reflect.DeepEqual and with a table-driven reference encoder",
+   text="Message values are generated from the pinned tables, built with the decoder's allocators, encoded by the real encoders, compared byte for byte with the reference encoding, decoded and compared field for field with the original.",
+   note="Trusted: pinned tables + refcodec encoder. Contents are pattern-based, subsets beyond 3 flips are not enumerated for messages with more than 12 optional elements."),
+ "C03": dict(level="model_checking", design="4.0, 4/C03",
+   technique="grammar-state exploration; on every accepted execution re-encode/decode/encode fixed-point oracle, byte-exactness for inputs the reference codec classifies as canonical",
+   text="All byte strings produced by the grammar explorer that the decoder accepts (reordered, duplicated, junk-containing and alias inputs included) are re-encoded, re-decoded and re-encoded; canonicity is decided by the independent reference codec.",
+   note="Trusted: pinned tables + refcodec (canonicity)."),
+ "C04": dict(level="model_checking", design="4.0, 4/C04",
+   technique="grammar-state exploration with lock-step comparison of the real decoders against an independent table-driven decoder (accept/reject and every field) + static structural diff (go/parser) of all 90 generated functions against the pinned tables",
+   text="For every explorer execution inside the grammar the implementation's verdict and decoded fields must equal the reference codec's; the declared-length sweep makes every length guard individually observable; the static half diffs slots, identifiers, guards, read/write expressions, emission order and dispatch of the generated code against the tables. Encoder bytes are compared with the reference encoding in C02.",
+   note="Trusted: the pinned tables mc/spec/ts24501_msgs.json (provenance in the file) and refcodec."),
+ "C05": dict(level="model_checking", design="4/C05",
+   technique="exhaustive enumeration of all 256x256 (discriminator, message type) pairs at both header offsets, all short inputs, all ordered reuse pairs and all 256 types on encode, against the pinned message-type table",
+   text="Complete enumeration of the dispatch space on decode and encode, on fresh and reused messages, executed on the real entry points; oracle from the pinned tables, independent of the generated switch.",
+   note="Trusted: pinned message-type table. A family header with an assigned type but nil body is not asserted (ambiguous)."),
+ "C09": dict(level="exploration", design="4/C09",
+   technique="exhaustive enumeration per accessor pair: all 256 priors of the host octet x all 256 argument values (all field values x all 2^16 host-octet priors for partial two-octet fields), oracle computed from the pinned bit-layout annotation",
+   text="Every Get/Set pair of every nasType element discovered in the current tree is executed over the full (prior host octet, argument) product with the remaining octets in {00,FF,A5}; Get must return exactly the annotated bits, Set must change exactly those bits and nothing else (other octets, Iei, Len, storage length).",
+   note="Trusted: pinned annotations mc/spec/accessors.json (the repository's only layout documentation). Multi-octet copy fields and INF fields are covered by patterns."),
+ "C10": dict(level="model_checking", design="4.0, 4/C10",
+   technique="grammar-state exploration; on every execution input-immutability, address-range aliasing check of every decoded byte slice against the input buffer, decode determinism, encode purity/append-only on every accepted message",
+   text="On every explorer execution (accepted and rejected): input and spare capacity unchanged, no decoded slice overlaps the input's backing array, two decodes agree; on accepted messages encoding leaves the message equal to an untouched twin, preserves pre-existing buffer contents and appends exactly the bytes produced into an empty buffer.",
+   note="Trusted: reflection walk reaches every []uint8 of the message structs."),
  "C11": dict(level="model_checking", design="4/C11",
    technique="explicit-state model checking on the real object: all 2^24 counter states x operation alphabet, lock-step with a 24-bit integer model",
    text="Every one of the 2^24 states of security.Count is constructed through the public API and every operation of the alphabet is executed from it on the implementation and on the reference model; Get/SQN/Overflow compared after each step. One-step agreement from every state gives all histories by induction; depth-3 sequences are enumerated as a redundancy.",
